@@ -68,7 +68,7 @@ CLAIMED = {
              "write/finish reply is ok exactly when the Spec.Contract violation list of that call is empty, and every error names a precondition that the call violated (explains). The soft-float "
              "facts used (monotone ticks, lt/le duality, range test equivalence on genuine doubles) are proved; the scanner hypothesis is discharged by C14_split. Builder half (Props/C04Builder.lean): for every sequence of builder "
              "calls build succeeds iff some call configured video and no Opus track above 255 channels is left, and MissingVideoConfig is reported iff no video call was made. "
-             "Correspondence + oracle: the implementation's accept/reject decisions and error variants are judged against Spec.Contract computed from the history of the implementation's own replies.",
+             "Correspondence + oracle: the implementation's accept/reject decisions and error variants are judged against Spec.Contract computed from the history of the implementation's own replies. The guard prefixes of write_video / write_video_with_dts / write_audio are TRANSLATED from src/api.rs on every run (tools/rs2lean_guards.py) and proved to decide as the model does (Props/C04Generated.lean).",
         note=TB + "Residual explicit hypotheses in the theorems: timestamps are decodings of 64-bit patterns (IsDouble), converted payload and file below 4 GiB (VideoSizeOk/AudioSizeOk/NoSizeLimit), NoStraddle (now unnecessary).",
         technique="Lean 4 proof (refinement to an abstract history with a 22-field invariant) + correspondence check",
         ref="DESIGN.md section 5 C04"),
